@@ -107,6 +107,21 @@ let hash_parts s = split_on '#' s
 
 let strip_ok s = if starts_with "ok:" s then Some (String.sub s 3 (String.length s - 3)) else None
 
+(* does the case contain a transformed hmtx table whose flags byte has bit 1 (0x02) set? *)
+let has_lsb_absent (input : string) : bool =
+  let bit1 (h : string) = String.length h >= 2 && (int_of_string ("0x" ^ String.sub h 0 2)) land 2 <> 0 in
+  match split_on '|' input with
+  | ("hmtx" | "hmtxp") :: _ :: _ :: hh :: _ -> bit1 hh
+  | ["font"; _; ph; bh; _] ->
+    (match read_font_prefix (bytes_of_hex ph) with
+     | Ok (((_, dir), _), _) ->
+       List.exists (fun e ->
+           z_to_int e.e_tag = 0x686D7478 && e.e_transform_length <> None &&
+           (let off = z_to_int e.e_offset in
+            String.length bh >= 2 * off + 2 && bit1 (String.sub bh (2 * off) 2))) dir
+     | _ -> false)
+  | _ -> false
+
 (* The property, decided on the implementation's output.
    1. A panic is a violation outright (class "panic"); the reason records what the model says so
       that the known-finding patterns can tell the overflow sites apart.
@@ -114,6 +129,8 @@ let strip_ok s = if starts_with "ok:" s then Some (String.sub s 3 (String.length
       value for the integer encodings, glyph list / metrics for glyf and hmtx, and for a font every
       untransformed table byte-identical, hmtx equal to the original bytes, and the glyphs read
       back from the rebuilt glyf+loca equal to the original glyphs (class "roundtrip").
+      An hmtx mismatch that is exactly the documented behaviour of the code for
+      LEFT_SIDE_BEARING_ABSENT gets its own class "hmtx-lsb-absent" (known finding).
    3. Otherwise, and in addition, the result must equal the model's, which Props/C11.v proves to be
       the specified decoding: a different value is class "inexact"; a difference only in how
       damaged input is refused is a Mismatch (correspondence broken, property not shown violated). *)
@@ -135,6 +152,21 @@ let judge (input : string) (impl : string) (model : string) : verdict =
                  (if m = 'd' then "debug" else "release")
                  (short md) (short mr))
   else begin
+    (* the font result carries a third part (glyphs read back) that the model does not compute *)
+    let icmp =
+      if k = "font" then
+        (match strip_ok ires with
+         | Some r -> (match hash_parts r with [d; t; _] -> "ok:" ^ d ^ "#" ^ t | _ -> ires)
+         | None -> ires)
+      else ires in
+    (* known finding C11-hmtx-lsb-absent: the case carries a transformed hmtx whose flags byte has
+       LEFT_SIDE_BEARING_ABSENT set, and the implementation does exactly what the model (which
+       describes the code as it stands, see C11_hmtx_lsb_absent_actual) says *)
+    let lsb_absent () =
+      icmp = mres && (try has_lsb_absent input with _ -> false) in
+    let lsb_absent_v what =
+      Violation ("hmtx-lsb-absent",
+                 Printf.sprintf "%s: LEFT_SIDE_BEARING_ABSENT: the rebuilt hmtx holds the xMin of all glyphs from glyph 0 (numGlyphs trailing entries) instead of the original left side bearings" what) in
     (* ground truth *)
     let truth : verdict option =
       match k with
@@ -147,6 +179,7 @@ let judge (input : string) (impl : string) (model : string) : verdict =
       | "glyf" | "hmtx" | "hmtxp" ->
         if o = "-" then None
         else if ires = "ok:" ^ o then None
+        else if k <> "glyf" && lsb_absent () then Some (lsb_absent_v k)
         else Some (Violation ("roundtrip", Printf.sprintf "%s: decoded value differs from the encoder's input" k))
       | "font" ->
         if o = "-" then None
@@ -160,7 +193,9 @@ let judge (input : string) (impl : string) (model : string) : verdict =
                      | None -> true
                      | Some d' -> d <> "*" && d <> d') otab in
                  let extra = List.filter (fun (t, _) -> not (List.mem_assoc t otab)) itab in
-                 if bad <> [] then
+                 if List.map fst bad = ["1752003704"] && extra = [] && ig = og && lsb_absent () then
+                   Some (lsb_absent_v "font")
+                 else if bad <> [] then
                    Some (Violation ("roundtrip", Printf.sprintf "font: table %s is not byte-identical to the original" (fst (List.hd bad))))
                  else if extra <> [] then
                    Some (Violation ("roundtrip", Printf.sprintf "font: table %s was not in the original font" (fst (List.hd extra))))
@@ -173,13 +208,6 @@ let judge (input : string) (impl : string) (model : string) : verdict =
     match truth with
     | Some v -> v
     | None ->
-      (* the font result carries a third part (glyphs read back) that the model does not compute *)
-      let icmp =
-        if k = "font" then
-          (match strip_ok ires with
-           | Some r -> (match hash_parts r with [d; t; _] -> "ok:" ^ d ^ "#" ^ t | _ -> ires)
-           | None -> ires)
-        else ires in
       if icmp = mres then Agree
       else if mres = "panic" || mres = "oob" then Mismatch (Printf.sprintf "%s: model %s, implementation %s" k mres (String.sub ires 0 (min 60 (String.length ires))))
       else if starts_with "ok:" icmp && starts_with "ok:" mres then
